@@ -195,23 +195,10 @@ fn c11_unary_table_and_permutations_inverse() {
     kani::cover!(x == 64);
 }
 
-//@ props: C11 C14
-//@ tier: quick
-//@ timeout: 1800
-//@ functions: cpc::compression::CompressedState::low_level_compress_pairs
-//@ functions: cpc::compression::low_level_uncompress_pairs
-//@ functions: cpc::compression::CompressedState::compress_surprising_values
-//@ functions: cpc::compression::uncompress_surprising_values
-//@ bounds: lg_k = 4: 1..=3 symbolic (row, col) pairs, sorted and distinct, rows 0..16, columns 0..64
-//@ desc: compress_surprising_values followed by uncompress_surprising_values returns exactly the pair list (x-delta unary code + Golomb-coded y-delta)
-#[kani::proof]
-#[kani::unwind(8)]
-fn c11_pairs_stream_roundtrip() {
-    let p: [u32; 3] = kani::any();
-    let n: usize = kani::any();
-    kani::assume(n >= 1 && n <= 3);
+fn pairs_stream_case<const N: usize>() {
+    let p: [u32; N] = kani::any();
     let mut i = 0;
-    while i < 3 {
+    while i < N {
         kani::assume(p[i] < (16 << 6));
         if i > 0 {
             kani::assume(p[i - 1] < p[i]);
@@ -219,17 +206,42 @@ fn c11_pairs_stream_roundtrip() {
         i += 1;
     }
     let mut cs = CompressedState::default();
-    cs.compress_surprising_values(&p[..n], 4);
-    assert!(cs.table_num_entries as usize == n);
+    cs.compress_surprising_values(&p, 4);
+    assert!(cs.table_num_entries as usize == N);
     assert!(cs.table_data_words <= cs.table_data.len());
-    let back = crate::verif_kani_common::expect_ok(uncompress_surprising_values(&cs.table_data, cs.table_data_words, n as u32, 4), "a compressed pair stream was rejected");
-    assert!(back.len() == n);
+    let back = crate::verif_kani_common::expect_ok(uncompress_surprising_values(&cs.table_data, cs.table_data_words, N as u32, 4), "a compressed pair stream was rejected");
+    assert!(back.len() == N);
     let mut i = 0;
-    while i < n {
+    while i < N {
         assert!(back[i] == p[i], "pair stream does not round-trip");
         i += 1;
     }
-    kani::cover!(n == 3 && p[0] >> 6 == p[1] >> 6);
-    kani::cover!(n == 3 && p[2] >> 6 == 15);
+    kani::cover!(p[N - 1] >> 6 == 15);
     core::mem::forget((cs, back));
 }
+
+macro_rules! pairs_stream {
+    ($name:ident, $n:expr) => {
+        #[kani::proof]
+        #[kani::unwind(8)]
+        fn $name() {
+            pairs_stream_case::<$n>();
+        }
+    };
+}
+
+//@ family: pairs_stream
+//@ props: C11 C14
+//@ tier: thorough
+//@ timeout: 3600
+//@ functions: cpc::compression::CompressedState::low_level_compress_pairs
+//@ functions: cpc::compression::low_level_uncompress_pairs
+//@ functions: cpc::compression::CompressedState::compress_surprising_values
+//@ functions: cpc::compression::uncompress_surprising_values
+//@ unwind: 8
+//@ bounds: lg_k = 4: the instance's number (1, 2, 3) of symbolic (row, col) pairs, sorted and distinct, rows 0..16, columns 0..64
+//@ desc: compress_surprising_values followed by uncompress_surprising_values returns exactly the pair list (x-delta unary code + Golomb-coded y-delta)
+pairs_stream!(c11_pairs_stream_roundtrip_1, 1); //@ tier: quick
+pairs_stream!(c11_pairs_stream_roundtrip_2, 2); //@ tier: quick
+pairs_stream!(c11_pairs_stream_roundtrip_3, 3);
+//@ endfamily: x
